@@ -13,7 +13,7 @@ R7 scoping of enumerations / writes in the shared store (the C04 rules): an unsc
 """
 import ast
 
-from ..core import AnalysisError, norm, loc, walk_no_nested, attr_chain, call_name, func_params
+from ..core import AnalysisError, norm, loc, walk_no_nested, attr_chain, call_name, func_params, kwarg
 from ..cfg import CFG
 from ..normalize import branch_values, Unknown, ctext, canon, local_env, expand, inline
 from .. import nxgraph as nxg
@@ -331,7 +331,19 @@ def run(prog, rep):
             rep.violation('R5', loc(mod, l), fq, 'unmentioned properties', 'properties not mentioned in merge_properties must keep the caller\'s value')
     cn = [n for n in walk_no_nested(mn) if isinstance(n, ast.Call) and call_name(n) == 'contracted_nodes']
     rep.instance('R5', f'{fq}: {norm(cn[0], 110) if cn else "?"}')
-    if not cn or [ast.unparse(a) for a in cn[0].args[1:3]] != ['real_node', 'real_other_node'] or \
+    menv = local_env(mn)
+
+    def _found(e, other):
+        e = expand(e, menv)
+        if not (isinstance(e, ast.Call) and call_name(e) == '_find_node'):
+            return False
+        nid, gid = kwarg(e, 'node_id'), kwarg(e, 'graph_id')
+        if nid is None or ast.unparse(nid) != 'node_id':
+            return False
+        if other:
+            return gid is not None and ast.unparse(gid) == 'other_graph.graph_id'
+        return gid is None or ast.unparse(gid) == 'self.graph_id'
+    if not cn or len(cn[0].args) < 3 or not _found(cn[0].args[1], False) or not _found(cn[0].args[2], True) or \
             not any(k.arg == 'copy' and isinstance(k.value, ast.Constant) and k.value.value is False for k in cn[0].keywords):
         rep.violation('R5', loc(mod, mn), fq, 'contraction', 'the other node must be contracted into the caller\'s node in place (keeping the edges of both)')
     def sink2(st):
